@@ -69,8 +69,12 @@ class Timer:
 
 class NumpyArrayListHasher:
     def __init__(self, x) -> None:
-        self.values = x
-        self.h = NumpyArrayListHasher._create_hashable(x)
+        hashes = [xxh3_64_hexdigest(arr) for arr in x]
+        # The key ignores the order of the arrays, so the cached value must not depend on it either:
+        # always compute on the arrays in the order of their hashes
+        order = sorted(range(len(hashes)), key=hashes.__getitem__)
+        self.values = [x[i] for i in order]
+        self.h = tuple(hashes[i] for i in order)
 
     @staticmethod
     def _create_hashable(list_of_np_arrays):
@@ -112,9 +116,14 @@ def list_of_np_cache(*args, **kwargs):
 
 class NumpyTwoArraysHasher:
     def __init__(self, arr_1, arr_2) -> None:
+        hash_1 = xxh3_64_hexdigest(arr_1)
+        hash_2 = xxh3_64_hexdigest(arr_2)
+        # The key ignores the order of the two arrays, so always compute on them in the order of their hashes
+        if hash_2 < hash_1:
+            arr_1, arr_2 = arr_2, arr_1
         self.input_1 = arr_1
         self.input_2 = arr_2
-        self.h = frozenset([xxh3_64_hexdigest(arr_1), xxh3_64_hexdigest(arr_2)])
+        self.h = frozenset([hash_1, hash_2])
 
     def __hash__(self) -> int:
         return hash(self.h)
